@@ -341,6 +341,8 @@ def gen_corpus_package(seed_key, opts: GenOpts | None = None, with_import: bool 
         with_import = r.random() < 0.3
     if with_import:
         lib = g.gen_package("Lib%s" % "".join(ch for ch in str(seed_key) if ch.isalnum())[:6].capitalize(), (), None)
-        lib.defs = [d for d in lib.defs if not isinstance(d, Proto)]
+        if r.random() < 0.5:
+            # yardl ignores protocols of imported packages; keeping them exercises that path
+            lib.defs = [d for d in lib.defs if not isinstance(d, Proto)]
         imp = [lib]
     return g.gen_package("Mod%s" % "".join(ch for ch in str(seed_key) if ch.isalnum())[:6].capitalize(), imp)
